@@ -75,7 +75,7 @@ CLAIMS.update({
                      'stake-weighted median over each validator\'s last reporting vote with the 0.667 threshold, timestamp pair required, strictly increasing timestamps) and the host-set '
                      'refresh; QuorumSound is stated independently on distinct validly-signing known validators. Bounded model: 3 known validators (powers 1,1,1 and 2,1,1), a 5-validator set, a same-size set with one member replaced, + 1 unknown, '
                      'per-validator vote kinds x duplicated / unknown / garbage extras, 7 signature kinds, set refreshes from the right / wrong / empty client at higher / lower heights; '
-                     'every vote list is built with real ed25519 keys and signatures and submitted through the real MsgUpdateOracle.', note=COMMON_NOTE + ' The connect oracle keeper, vote aggregator and codecs are the real ones and trusted.'),
+                     'every vote list is built with real ed25519 keys and signatures and submitted through the real MsgUpdateOracle.' + E3 + ' (host sets of one to seven validators with powers 1..6 and 1000, three currency pairs, vote lists in random order)', note=COMMON_NOTE + ' The connect oracle keeper, vote aggregator and codecs are the real ones and trusted.'),
     'C16': dict(text='A genesis round trip (export -> JSON -> ValidateGenesis -> InitGenesis on a fresh instance -> second export compared) is an event in the L1 ledger, L2 deposit and '
                      'validator-set models, offered in every reachable state; the walk CONTINUES on the re-imported chain, so every later message and query of the model is answered by the '
                      're-imported chain and compared with the specification (where the round trip leaves the abstract state unchanged, every event enabled in that state is executed once more on the re-imported chain), and the L2 import feeds InitGenesis updates to a fresh CometBFT set.' + E3, note=COMMON_NOTE),
